@@ -161,13 +161,46 @@ def infoset_both(text):
 
 
 # ------------------------------------------------------------------ the tokenizer's view
+def iterparse_kwargs(module, clsname):
+    """keyword arguments of the handler's own `etree.iterparse(source, EVENTS, ...)`
+    call, read from the working tree (fail-closed on an unexpected shape)"""
+    import ast
+    import inspect
+
+    from xsdata.formats.dataclass.parsers.config import ParserConfig
+
+    tree = ast.parse(inspect.getsource(module))
+    cls = [n for n in tree.body if isinstance(n, ast.ClassDef) and n.name == clsname]
+    calls = [n for n in ast.walk(cls[0]) if isinstance(n, ast.Call) and isinstance(n.func, ast.Attribute)
+             and n.func.attr == "iterparse"]
+    if len(cls) != 1 or len(calls) != 1 or len(calls[0].args) != 2 or ast.unparse(calls[0].args[1]) != "EVENTS":
+        raise SystemExit(f"impl_c11: unexpected iterparse call shape in {clsname}")
+    if tuple(getattr(module, "EVENTS")) != EVENTS:
+        raise SystemExit(f"impl_c11: {clsname} listens to other events")
+    kw = {}
+    for k in calls[0].keywords:
+        if isinstance(k.value, ast.Constant):
+            kw[k.arg] = k.value.value
+        elif ast.unparse(k.value) == "self.parser.config." + k.arg:
+            kw[k.arg] = getattr(ParserConfig(), k.arg)
+        else:
+            raise SystemExit(f"impl_c11: cannot evaluate iterparse argument {k.arg} in {clsname}")
+    return kw
+
+
+from xsdata.formats.dataclass.parsers.handlers import lxml as _lxml_mod, native as _native_mod  # noqa: E402
+
+ITERPARSE_KW = {"native": iterparse_kwargs(_native_mod, "XmlEventHandler"),
+                "lxml": iterparse_kwargs(_lxml_mod, "LxmlEventHandler")}
+
+
 def observe(handler, b):
     """length of element.text / element.tail at each `end` event of the library's own
     iterparse, called the way the xsdata handler calls it"""
     if handler == "native":
-        ctx = ET.iterparse(io.BytesIO(b), EVENTS)
+        ctx = ET.iterparse(io.BytesIO(b), EVENTS, **ITERPARSE_KW["native"])
     else:
-        ctx = LX.iterparse(io.BytesIO(b), EVENTS, recover=True, remove_comments=True, load_dtd=False)
+        ctx = LX.iterparse(io.BytesIO(b), EVENTS, **ITERPARSE_KW["lxml"])
     out, counters, paths = [], [0], []
     for ev, el in ctx:
         if ev == "start":
